@@ -20,7 +20,9 @@ RULE = ('seeded random C and C++ projects (vf/gen/c07gen.py: 3-10 translation un
         'include-directory names plain or with spaces and Make-special characters, each admitted '
         '(the random names include the same character twice, and directed two-TU projects carry '
         'every special character twice - adjacent and separated - in headers that are renamed and '
-        'then deleted; further projects - two random ones in eight and directed four-TU ones per '
+        'then deleted, other directed projects carry white space that is not ASCII space/tab - '
+        'U+00A0 U+3000 U+2003 U+2028 U+0085 VT FF US - in a header name and a header '
+        'sub-directory; further projects - two random ones in eight and directed four-TU ones per '
         'character - put the special characters into source file names, source sub-directories '
         'and executable/library names, i.e. into the path of the objects and their .d files, '
         'with plain header names) per compiler and back end by calibration against a hand-written Makefile/build.ninja that '
@@ -89,6 +91,7 @@ def floors(tier):
             'edit:header-gone-with-repeated-character': 20 if q else 150,
             'obligations:must-recompile-object-with-special-path': 40 if q else 600,
             'calibration:object-admitted': 20 if q else 150,
+            'edit:header-gone-with-odd-space': 10 if q else 60,
             'edit:mod_pch': 3 if q else 50,
             'edit:header-only-through-pch': 3 if q else 50,
             'obligations:pch-users-must-recompile': 10 if q else 300,
@@ -98,6 +101,11 @@ def floors(tier):
 
 # --------------------------------------------------------------------------
 # tool chain
+
+def show(chars):
+    """Special characters for labels: printable ASCII as it is, the rest as U+XXXX."""
+    return ''.join(c if ' ' <= c <= '~' else 'U+%04X' % ord(c) for c in chars)
+
 
 def cc_for(compiler, lang, wrap=True):
     name = {('gcc', 'c'): 'gcc', ('gcc', 'c++'): 'g++',
@@ -507,6 +515,16 @@ def cases(tier, seed):
             for backend in ('make', 'ninja'):
                 yield {'index': 1000 + k, 'backend': backend, 'compiler': compiler, 'jobs': 1,
                        'directed': 'repeated:' + chars, 'state': st, 'history': hist}
+    # directed: white space other than ASCII space/tab in a header name and in a header
+    # sub-directory; each such header renamed, then deleted
+    for compiler in (['gcc'] if quick else ['gcc', 'clang']):
+        for chars in g.WS_QUICK:
+            k += 1
+            st, hist = g.directed_repeat(('c', 'c++')[k % 2], chars,
+                                         g.INCMODES[k % len(g.INCMODES)], g.odd_space_names)
+            for backend in ('make', 'ninja'):
+                yield {'index': 1000 + k, 'backend': backend, 'compiler': compiler, 'jobs': 1,
+                       'directed': 'odd-space:' + ascii(chars), 'state': st, 'history': hist}
     for compiler in (['gcc'] if quick else ['gcc', 'clang']):
         for c in (g.OBJ_CHARS_QUICK if quick else g.OBJ_CHARS_ALL):
             k += 1
@@ -558,7 +576,7 @@ def _pass(case, res, banned, count):
             res.ev('calibration:admitted' if ok else 'calibration:excluded')
             if not ok:
                 res.exclude('%s/%s: %s: %s' % (compiler, backend, why,
-                                               g.name_chars(incdir + '/' + relpath)))
+                                               show(g.name_chars(incdir + '/' + relpath))))
         if ok and record and (incdir, relpath) not in used:
             used.append((incdir, relpath))
         return ok
@@ -607,7 +625,7 @@ def _resolve_objnames(case, res):
         res.ev('calibration:object-admitted' if ok else 'calibration:object-excluded')
         if not ok:
             res.exclude('%s/%s: object path: %s: %s' % (
-                compiler, backend, why, g.name_chars(target + '/' + srcrel)))
+                compiler, backend, why, show(g.name_chars(target + '/' + srcrel))))
         return ok
 
     if st.get('exe_name') and not ok_obj(st['exe_name'], 't' + ext):
@@ -650,7 +668,7 @@ def resolve(case, res):
         # drop one name (parentheses first: they pair up across names) and try again
         victim = next((p for p in used if '(' in p[0] + p[1] or ')' in p[0] + p[1]), used[-1])
         res.exclude('%s/%s: names together: %s: %s' % (
-            compiler, backend, why, g.name_chars(victim[0] + '/' + victim[1])))
+            compiler, backend, why, show(g.name_chars(victim[0] + '/' + victim[1]))))
         banned.add(victim)
         if victim[1] == 'p.h':
             banned.add((victim[0], None))
@@ -731,6 +749,8 @@ def fail_reason(out):
         return 'ninja-missing-input'
     if 'depfile' in o and ('expected' in o or 'ninja: error' in o):
         return 'ninja-depfile'
+    if re.search(r'ld: cannot find [^\n]*\.o: No such file', o):
+        return 'linker-cannot-find-object'
     if 'No such file or directory' in o and ('fatal error' in o or 'error:' in o):
         return 'header-not-found'
     if 'error:' in o:
@@ -820,7 +840,27 @@ def run_history(case, st, hist, res, count=True, keep_going=False):
                    __case__=dict(case, history=list(done)))
         what2 = what + ('/' + kw['reason'] if kw.get('reason') else '')
         kc = KIND_CLASS.get(kind, kind)
-        trig = 'chars:' + chars
+        trig = 'chars:' + show(chars)
+        # names that end up in object paths (for predicates on the witness)
+        cs = ctx['state']
+        wit['object_path_names'] = ' | '.join(
+            [g.exe_name(cs), g.lib_name(cs)] +
+            [t['file'] for t in cs['tus'].values() if g.name_chars(t['file'])])
+        m = re.search(r"No rule to make target '([^\n]*?)', needed by '([^\n]*?)'",
+                      kw.get('raw_output') or '')
+        if m and kind == 'initial':
+            # a SOURCE (or an object) the generated Makefile itself cannot name: nothing to do
+            # with headers or depfiles
+            rel = m.group(1).replace(os.path.join(root, 'src') + '/', '')
+            wit['no_rule_for'] = rel
+            # make prints the name as it looked it up: a backslash that is still there was
+            # written by bfg9000 and not taken off by make
+            kept = ''.join(sorted(set(re.findall(r'\\(.)', rel, re.S))))
+            trig = 'unbuildable-path:' + show(kept or g.name_chars(rel))
+            wit['no_probe'] = True
+        elif kw.get('reason') == 'linker-cannot-find-object' and kind == 'initial':
+            trig = 'object-path:' + show(g.name_chars(wit['object_path_names'].replace(' | ', '')))
+            wit['no_probe'] = True
         tus = [t for t in (kw.get('missing') or kw.get('wrong_tus') or []) if t != 'pch']
         objs = sorted(os.path.relpath(p_, bld) for p_, (k_, t_) in products.items()
                       if k_ == 'object' and t_ in tus)
@@ -829,7 +869,7 @@ def run_history(case, st, hist, res, count=True, keep_going=False):
            not g.name_chars(edited or ''):
             # plainly named header, but the objects concerned have special characters in
             # their own path (source name, source directory, target name)
-            trig = 'object-path:' + ochars
+            trig = 'object-path:' + show(ochars)
             wit['object_paths'] = objs
             wit['no_probe'] = True
         if wit.pop('pch_related', False):
@@ -1007,6 +1047,8 @@ def run_history(case, st, hist, res, count=True, keep_going=False):
                     ev('edit:stale-dep-header-gone')
                     if any((edited or '').count(c) > 1 for c in g.name_chars(edited or '')):
                         ev('edit:header-gone-with-repeated-character')
+                    if any(c in g.WS_SPECIALS for c in (edited or '')):
+                        ev('edit:header-gone-with-odd-space')
                 chars = g.name_chars(edited_for_class or '')
                 if chars:
                     ev('names:special-admitted')
@@ -1018,7 +1060,7 @@ def run_history(case, st, hist, res, count=True, keep_going=False):
                         res.classes.add('pch:%s/%s/%s' % (nxt['pch']['form'], backend, compiler))
                     res.classes.add('%s/%s/%s' % (backend, compiler, kind))
                     if chars:
-                        res.classes.add('chars:' + chars)
+                        res.classes.add('chars:' + show(chars))
                 if rc != 0:
                     fail(idx, kind, 'build-failed', edited_for_class, reason=fail_reason(out),
                          output=out[-1500:], op=op)
@@ -1125,13 +1167,13 @@ def triggers(backend, compiler, lang, names, head):
             in_name = any(c in x for x in comps[1:])
             tries = []
             if in_name:
-                tries.append(('char:' + c, 'h1%sm.h' % c, 'inc'))
+                tries.append(('char:' + show(c), 'h1%sm.h' % c, 'inc'))
                 if any(x.count(c) > 1 for x in comps[1:]):
-                    tries.append(('char:' + c + '@repeated', 'h1%s%sm%sk.h' % (c, c, c), 'inc'))
+                    tries.append(('char:' + show(c) + '@repeated', 'h1%s%sm%sk.h' % (c, c, c), 'inc'))
                 if any(x.startswith(c) for x in comps[1:]):
-                    tries.append(('char:' + c + '@lead', '%sh1.h' % c, 'inc'))
+                    tries.append(('char:' + show(c) + '@lead', '%sh1.h' % c, 'inc'))
             if in_dir:
-                tries.append(('char:' + c, 'h1.h', 'i%sd' % c))
+                tries.append(('char:' + show(c), 'h1.h', 'i%sd' % c))
             for label, name, incdir in tries:
                 if label in culprits:
                     break
@@ -1141,7 +1183,7 @@ def triggers(backend, compiler, lang, names, head):
                     break
     if culprits:
         return sorted(culprits.items())
-    return [('combination:' + ''.join(sorted(allchars)), None)]
+    return [('combination:' + show(''.join(sorted(allchars))), None)]
 
 
 def run_case(case):
@@ -1158,7 +1200,7 @@ def run_case(case):
             fixed.append((mech, wit))
             continue
         if 'offending_chars' in wit:
-            trigs = [('combination:' + wit['offending_chars'], None)]
+            trigs = [('combination:' + show(wit['offending_chars']), None)]
         else:
             trigs = triggers(case['backend'], case['compiler'], st['lang'],
                              wit['special_names'], (mech[1], mech[2]))
